@@ -626,11 +626,16 @@ def mon_c06(t):
                 if "OURS" not in e["fins"] and e["out"] in ("ok", "aerr"):
                     # finalizer dropped: no existing node may depend on this ClusterCIDR
                     ents = [en for en in (t.snap[k - 1] or []) if en["name"] == e["name"]]
+                    spec = t.spec_at(k).get(e["name"])
                     for n in t.api[k - 1][0]:
                         for c in n["cidrs"]:
                             for en in ents:
                                 p = en["v4"] if c and c[0] == "v4" else en["v6"]
-                                if p and any(overlap(c, key) for key in p["keys"]):
+                                # a node depends on the ClusterCIDR when its CIDRs are reserved there on its behalf: it is
+                                # associated, or the ClusterCIDR selects it (a node the ClusterCIDR does not select is never
+                                # recorded there; an overlap with e.g. a service-range reservation is a coincidence)
+                                tracked = n["name"] in en["assoc"] or (spec is not None and sel_matches(spec["sel"], n["labels"]))
+                                if tracked and p and any(overlap(c, key) for key in p["keys"]):
                                     bad.append({"step": k, "clause": "finalizer removed while an existing node depends on the ClusterCIDR",
                                                 "detail": "%s still reserves %s for node %s" % (e["name"], c, n["name"]), "cls": classify_c06(t, k, en, n)})
                     removed.add(e["name"])
